@@ -348,10 +348,13 @@ func c02GenItems(r *rand.Rand, rows []c02Row, tip, excess int64, prev []c02Item,
 		case x < 50: // a stored root at a special height
 			items = append(items, c02Item{tok, heights[r.Intn(len(heights))]})
 			c.Count("item:stored-root-special-height")
-		case x < 58: // a stored root one off
+		case x < 54: // a stored root one off
 			items = append(items, c02Item{tok, row.Height + int64(r.Intn(3)) - 1})
 			c.Count("item:stored-root-near-height")
-		case x < 75: // an unknown root at a special height
+		case x < 62: // a stored root at the height of another stored row (another copy of the root, or another root's height)
+			items = append(items, c02Item{tok, rows[r.Intn(len(rows))].Height})
+			c.Count("item:stored-root-other-row-height")
+		case x < 76: // an unknown root at a special height
 			items = append(items, c02Item{fmt.Sprintf("r%d", 9000+r.Intn(5)), heights[r.Intn(len(heights))]})
 			c.Count("item:unknown-root")
 		case x < 80: // an unknown root at a stored height
@@ -504,6 +507,146 @@ func c02Run(c *Ctx, p *c02Stacks, head map[string]string, ops []merkOp, gen *ran
 	return nil
 }
 
+func subOps02(subs []Sub) []merkOp {
+	ops := make([]merkOp, len(subs))
+	for i := range subs {
+		sb := subs[i]
+		ops[i] = merkOp{Sub: &sb}
+	}
+	return ops
+}
+
+// c02ShareRoots redraws every header's merkle id from a pool of the given size (sometimes the genesis root),
+// identically for repeated submissions of the same id.
+func c02ShareRoots(r *rand.Rand, h *History, pool int) {
+	def := map[int]int{}
+	for j := range h.Subs {
+		id := h.Subs[j].ID
+		if _, ok := def[id]; !ok {
+			if r.Intn(12) == 0 {
+				def[id] = 1
+			} else {
+				def[id] = 150 + r.Intn(pool)
+			}
+		}
+		h.Subs[j].Merkle = def[id]
+	}
+}
+
+// c02Matrix asks for every (root of the history, height 0..depth+1): each root at each of its heights and at the
+// heights where other roots live (at most 60 items, drawn when there are more).
+func c02Matrix(r *rand.Rand, h *History) string {
+	roots := []int{1}
+	seen := map[int]bool{1: true}
+	for _, sb := range h.Subs {
+		if !seen[sb.Merkle] {
+			seen[sb.Merkle] = true
+			roots = append(roots, sb.Merkle)
+		}
+	}
+	depth := map[int]int{genesisID: 0}
+	maxd := 0
+	for pass := 0; pass < 3; pass++ {
+		for _, sb := range h.Subs {
+			if d, ok := depth[sb.Prev]; ok {
+				depth[sb.ID] = d + 1
+				if d+1 > maxd {
+					maxd = d + 1
+				}
+			}
+		}
+	}
+	var items []c02Item
+	for _, rt := range roots {
+		for hh := 0; hh <= maxd+1; hh++ {
+			items = append(items, c02Item{fmt.Sprintf("r%d", rt), int64(hh)})
+		}
+	}
+	r.Shuffle(len(items), func(i, j int) { items[i], items[j] = items[j], items[i] })
+	if len(items) > 60 {
+		items = items[:60]
+	}
+	return c02ItemsString(items)
+}
+
+// c02Planted builds the shapes in which one merkle root occurs at several heights:
+//   0 (a) a linear longest chain whose roots come from a pool of 1..3
+//   1 (b) a main chain with a stale sibling at every height carrying the root of the main block of the SAME height or
+//         of ANOTHER height
+//   2 (c) a common prefix, an old branch, and a longer new branch that repeats roots of the prefix: the reorganisation
+//         promotes second copies of roots whose first copies stay on the longest chain; asked before and after
+//   3 (d) as (c) but the new branch repeats roots of the OLD branch (the first copy goes stale, the second becomes longest)
+func c02Planted(r *rand.Rand, kind int) (*History, []merkOp) {
+	h := &History{}
+	k := 0
+	add := func(id, prev, merkle int) {
+		h.Subs = append(h.Subs, Sub{ID: id, Prev: prev, Bits: bitsW2, Ver: 1, Merkle: merkle, TS: uint32(1600000000 + k), Nonce: uint32(k)})
+		k++
+	}
+	pool := 1 + r.Intn(3)
+	rt := func() int { return 150 + r.Intn(pool) }
+	switch kind {
+	case 0:
+		n := 2 + r.Intn(8)
+		prev := genesisID
+		for i := 0; i < n; i++ {
+			add(2+i, prev, rt())
+			prev = 2 + i
+		}
+		return h, append(subOps02(h.Subs), merkOp{Tag: "q", Arg: c02Matrix(r, h)})
+	case 1:
+		n := 2 + r.Intn(7)
+		main := make([]int, n)
+		for i := range main {
+			main[i] = 160 + i
+		}
+		prev := genesisID
+		for i := 0; i < n; i++ {
+			add(2+i, prev, main[i])
+			if r.Intn(2) == 0 {
+				add(200+i, prev, main[i]) // same height, same root
+			} else {
+				add(200+i, prev, main[r.Intn(n)]) // the root of another height
+			}
+			prev = 2 + i
+		}
+		return h, append(subOps02(h.Subs), merkOp{Tag: "q", Arg: c02Matrix(r, h)})
+	default:
+		p := 1 + r.Intn(3)
+		a := 1 + r.Intn(3)
+		prev := genesisID
+		var prefixRoots, oldRoots []int
+		for i := 0; i < p; i++ {
+			m := 170 + i
+			add(2+i, prev, m)
+			prefixRoots = append(prefixRoots, m)
+			prev = 2 + i
+		}
+		fork := prev
+		for i := 0; i < a; i++ {
+			m := 180 + i
+			add(20+i, prev, m)
+			oldRoots = append(oldRoots, m)
+			prev = 20 + i
+		}
+		prev = fork
+		src := prefixRoots
+		if kind == 3 {
+			src = oldRoots
+		}
+		for i := 0; i <= a; i++ {
+			add(40+i, prev, src[r.Intn(len(src))])
+			prev = 40 + i
+		}
+		ops := subOps02(h.Subs)
+		q := merkOp{Tag: "q", Arg: c02Matrix(r, h)}
+		// asked just before the header that triggers the reorganisation, and after it
+		last := ops[len(ops)-1]
+		ops = append(ops[:len(ops)-1], q, last, q)
+		return h, ops
+	}
+}
+
 func runC02(c *Ctx) error {
 	p := &c02Stacks{c: c, by: map[int64]*Stack{}}
 	defer p.close()
@@ -524,12 +667,9 @@ func runC02(c *Ctx) error {
 		}
 	}
 	k := 0
-	fromHistory := func(h *History, tag string) error {
-		ops := make([]merkOp, len(h.Subs))
-		for i := range h.Subs {
-			sb := h.Subs[i]
-			ops[i] = merkOp{Sub: &sb}
-		}
+	var fromOps func(h *History, ops []merkOp, tag string) error
+	fromHistory := func(h *History, tag string) error { return fromOps(h, subOps02(h.Subs), tag) }
+	fromOps = func(h *History, ops []merkOp, tag string) error {
 		head := map[string]string{"e": strconv.FormatInt(c02Excesses[k%len(c02Excesses)], 10)}
 		k++
 		fs := make([]string, len(h.Forbidden))
@@ -553,7 +693,21 @@ func runC02(c *Ctx) error {
 	if eerr != nil {
 		return eerr
 	}
-	n := c.Pick(900, 4000)
+	// shared merkle roots (the property does NOT assume distinct roots): ids drawn from a small pool, and planted shapes
+	for i := 0; i < c.Pick(140, 1200); i++ {
+		h := GenHistory(c.Rng, GenOpts{N: 3 + c.Rng.Intn(c.Pick(14, 24)), PUnknown: 0.06, PLate: 0.08, PDup: 0.05, Positive: true, Deep: i%3 != 0})
+		c02ShareRoots(c.Rng, h, 1+c.Rng.Intn(4))
+		if err := fromOps(h, append(subOps02(h.Subs), merkOp{Tag: "q", Arg: c02Matrix(c.Rng, h)}), "shared-roots-random"); err != nil {
+			return err
+		}
+	}
+	for i := 0; i < c.Pick(120, 900); i++ {
+		h, ops := c02Planted(c.Rng, i%4)
+		if err := fromOps(h, ops, fmt.Sprintf("shared-roots-planted-%c", "abcd"[i%4])); err != nil {
+			return err
+		}
+	}
+	n := c.Pick(800, 4000)
 	for i := 0; i < n; i++ {
 		o := GenOpts{N: 2 + c.Rng.Intn(c.Pick(22, 40)), PUnknown: 0.08, PLate: 0.1, PDup: 0.05, PForbidden: 0.1, Positive: true, Deep: i%3 != 0}
 		if err := fromHistory(GenHistory(c.Rng, o), "random"); err != nil {
